@@ -93,7 +93,7 @@ PROPS = {
     "C16": {
         "rules": [r_fmt.run_c16, r_cost.run_c16, kind_scope("trainer::model", "raw_connector"),
                   r_scorer.reserved0, r_scorer.padval, r_scorer.rowrange, r_scorer.pruneset,
-                  r_misc.bigram_details_shape],
+                  r_misc.bigram_details_shape, r_scorer.rawbuild],
         "explanation": "FMT: bigram.left/right lines are `id TAB csv` with 1-based ids (what "
                        "parse_features and the id == line+1 check require); bigram.cost lines are "
                        "`left-word feature / right-word feature TAB cost`, matching the order in "
@@ -411,7 +411,9 @@ _ADDED = {
             "out-of-range id to Err. ROWRANGE: every slice a RawConnector method takes from a U31x8 feature table is "
             "aligned to rows of feat_template_size vectors ([k*w..(k+1)*w], k*w.., chunks of w).",
             "symbolic index-range shape rule"),
-    "C07": ("ROWRANGE as for C06 (the accessors used by cost()). NARROW over the connector "
+    "C07": ("RAWBUILD: the row width handed to RawConnector::new is the chunk width / 8 (vectors), "
+            "each table is filled from the builder field of its own side, and the width is the "
+            "maximum row length over both files. ROWRANGE as for C06 (the accessors used by cost()). NARROW over the connector "
             "functions: no narrowing cast and no 8/16-bit arithmetic on an id is left "
             "undischarged (id 65535 is a legal id).", "symbolic index-range shape rule"),
     "C02": ("COSTSUM: the i32 additions of path, connection and word costs on the tokenization "
